@@ -32,5 +32,10 @@ func getLinkSource(name string, fi os.FileInfo, inodes map[uint64]string) (strin
 // to that and applying fi's mode would act on whatever the symlink points to.
 func validLinkSource(link string, fi os.FileInfo) bool {
 	cur, err := os.Lstat(link)
-	return err == nil && cur.Mode().Type() == fi.Mode().Type()
+	want := fi.Mode().Type()
+	if want&os.ModeSocket != 0 {
+		// a socket is copied as a regular stub file
+		want = 0
+	}
+	return err == nil && cur.Mode().Type() == want
 }
